@@ -48,6 +48,14 @@ FLAGS = ["inf", "zero", "sub", "nan", "huge", "nonneg", "unique"]
 KW = dict(inf="include_infinity", zero="include_zero", sub="include_subnormal", nan="include_nan", huge="include_huge",
           nonneg="nonnegative", unique="unique")
 NSPEC = dict(rs=1, pair=2, triple=3, complex=2, cpair=4)
+# documented defaults of the pinned version (NOT read from the code under test): a flag equal to its default is passed by omission, so
+# that the default values in the five signatures are exercised too (a first-order mutant `include_zero=False` in the signature of
+# complex_pair_samples survived when every flag was always passed); min_value / max_value = None likewise
+DEFAULT_FLAGS = dict(inf=True, zero=True, sub=False, nan=False, huge=True, nonneg=False, unique=True)
+
+
+def flag_kw(flags, skip=()):
+    return {KW[k]: bool(flags[k]) for k in FLAGS if k not in skip and bool(flags[k]) != DEFAULT_FLAGS[k]}
 _np = None
 _U = None
 
@@ -120,8 +128,12 @@ def call_rs(f, flags, spec):
     """real_samples on one spec; returns ('ok', ndarray) | ('err', name, message)"""
     np, U = _load()
     size, lo, hi = spec
-    kw = {KW[k]: bool(flags[k]) for k in FLAGS}
-    kw.update(size=size, dtype=f.dtype, min_value=None if lo is None else f.val(lo), max_value=None if hi is None else f.val(hi))
+    kw = flag_kw(flags)
+    kw.update(size=size, dtype=f.dtype)
+    if lo is not None:
+        kw["min_value"] = f.val(lo)
+    if hi is not None:
+        kw["max_value"] = f.val(hi)
     try:
         with warnings.catch_warnings():
             warnings.simplefilter("ignore")
@@ -157,7 +169,7 @@ def call_case(case):
         else:
             l = [f.qnan if f.isnan(b) else b for b in l]
         return ("ok", l, out[1])
-    kw = {KW[k]: bool(flags[k]) for k in FLAGS if k != "unique"}
+    kw = flag_kw(flags, skip=("unique",))
     v = lambda b: None if b is None else f.val(b)  # noqa: E731
     def tup(xs):
         if all(x is None for x in xs):
@@ -761,7 +773,7 @@ def target_func_failure(case, tf):
     ones = [call_rs(f, flags, sp) for sp in case["specs"]]
     if any(o[0] == "err" or len(o[1]) == 0 for o in ones):
         return "skip"
-    kw = {KW[k]: bool(flags[k]) for k in FLAGS if k != "unique"}
+    kw = flag_kw(flags, skip=("unique",))
     v = lambda b: None if b is None else f.val(b)  # noqa: E731
     def tup(xs):
         if all(x is None for x in xs):
